@@ -1,9 +1,10 @@
 SPECIFICATION PSpec
 CONSTANTS
-  RunTypes = {"r_arg_base", "r_usa_nw", "r_dji_res", "r_wor", "r_bad", "r_alb_kf", "r_arg_kf", "r_arg_herd", "r_arg_own48"}
+  RunTypes = {"r_arg_base", "r_usa_nw", "r_dji_res", "r_wor", "r_bad", "r_alb_kf", "r_arg_kf", "r_arg_herd", "r_arg_own48", "r_dji_capoff"}
   Failing = {"r_bad"}
   Patched = {"r_alb_kf"}
   Overriding = {"r_arg_herd"}
+  LimitEditors = {"r_dji_capoff"}
   YamlAble = {"r_arg_base", "r_arg_own48"}
   OwnHorizon = {"r_arg_own48"}
   CountryOf <- CountryTab
